@@ -7,6 +7,17 @@ package message
 // across batches, across channels (ids), after truncation / trim of the
 // holder, after lease reclamation (warm and evicted filter state), after
 // whole-DB reopen, and behind a saturated negative membership filter.
+//
+// Exact re-submissions: a record whose (sender, client number) AND message id
+// (and payload) equal those of a row that is still stored — the retry of a
+// sequenced proposal — is appended again in allocator-issued-id mode (and in
+// strict mode), alone or inside a multi-record batch, right away, after lease
+// reclamation, after a whole-DB reopen and behind a saturated filter. The
+// message-id lookup is skipped in that mode by design, so the refusal has to
+// come from the idempotency path; "a retry never creates a second message".
+// A truncated tail is also re-applied verbatim at the same sequences (the
+// follower replay after a divergent-tail cut), which must be accepted and
+// leave exactly one copy.
 
 import (
 	"fmt"
@@ -34,6 +45,108 @@ type verifC08State struct {
 	acceptAfterFree                                                                                    bool
 	freed                                                                                               map[int]map[IdempotencyKey]bool
 	nRejected, nAccepted                                                                                int
+
+	// reloads per channel: log end at the last reload (rows at or below it were
+	// stored before the filter state was reclaimed) and whether it was cold
+	reloadLEO  map[int]uint64
+	reloadCold map[int]bool
+	removed    map[int][]verifC07Row // rows cut off by truncateTail / reapplyTail
+
+	resubSA, resubSAReloadCold, resubSAReloadWarm, resubSAMulti, resubSANotFirst, resubSASaturated bool
+	resubStrict, resubRemovedAccepted, resubRemovedRejected                                        bool
+	reapplyFetch, reapplyTrusted, reapplyValidating, reapplyAfterReload                            bool
+	nResubSA                                                                                       int
+}
+
+// verifC08RowRecord is the record a caller holds for a stored row: the exact
+// re-submission of that message.
+func verifC08RowRecord(r verifC07Row) Record {
+	return Record{ID: r.ID, FromUID: r.FromUID, ClientMsgNo: r.ClientMsgNo, ServerTimestampMS: r.TS,
+		Payload: append([]byte(nil), r.Payload...)}
+}
+
+func verifC08Keyed(r verifC07Row) bool { return r.FromUID != "" && r.ClientMsgNo != "" }
+
+// closeLeases / reopen wrap the driver and remember which rows predate the
+// reload of the channel's filter state.
+func (s *verifC08State) closeLeases(ci int) {
+	h := s.h
+	if len(h.s.leases[ci]) == 0 {
+		h.acquire(ci)
+	}
+	cold := h.nColdReclaim
+	h.closeLeases(ci)
+	s.reloadLEO[ci] = h.m.chans[ci].leo
+	s.reloadCold[ci] = h.nColdReclaim > cold
+}
+
+func (s *verifC08State) reopen(closeLeasesFirst bool) {
+	s.h.reopen(closeLeasesFirst)
+	for ci, c := range s.h.m.chans {
+		s.reloadLEO[ci] = c.leo
+		s.reloadCold[ci] = true
+	}
+}
+
+// truncated: sequences above the new log end will be assigned again.
+func (s *verifC08State) truncated(ci int) {
+	if leo := s.h.m.chans[ci].leo; s.reloadLEO[ci] > leo {
+		s.reloadLEO[ci] = leo
+	}
+}
+
+// exactOf returns the stored row of ci that r re-submits exactly (same pair and
+// same id), if any.
+func (s *verifC08State) exactOf(ci int, r Record) (verifC07Row, bool) {
+	if r.FromUID == "" || r.ClientMsgNo == "" {
+		return verifC07Row{}, false
+	}
+	c := s.h.m.chans[ci]
+	seq, live := c.keys[IdempotencyKey{FromUID: r.FromUID, ClientMsgNo: r.ClientMsgNo}]
+	if !live {
+		return verifC07Row{}, false
+	}
+	i, ok := c.find(seq)
+	if !ok || c.rows[i].ID != r.ID {
+		return verifC07Row{}, false
+	}
+	return c.rows[i], true
+}
+
+// firstCopyOnly: after a refused re-submission the pair and the id are still
+// stored once, at the original sequence, and both lookups point there. Asked
+// from the store directly, not through the reference maps.
+func (s *verifC08State) firstCopyOnly(ci int, orig verifC07Row) {
+	h := s.h
+	c := h.m.chans[ci]
+	k := IdempotencyKey{FromUID: orig.FromUID, ClientMsgNo: orig.ClientMsgNo}
+	hit, ok, err := h.log(ci).LookupIdempotency(h.ctx, k)
+	if err != nil || !ok || hit.MessageSeq != orig.Seq || hit.MessageID != orig.ID {
+		h.fail("after a refused re-submission of %q seq %d (id %d, %q/%q) LookupIdempotency = %+v ok=%v err=%v, want the first copy", c.key, orig.Seq, orig.ID, k.FromUID, k.ClientMsgNo, hit, ok, err)
+	}
+	msg, ok, err := h.log(ci).GetByMessageID(h.ctx, orig.ID)
+	if err != nil || !ok || msg.MessageSeq != orig.Seq {
+		h.fail("after a refused re-submission of %q seq %d (id %d) GetByMessageID = seq %d ok=%v err=%v, want the first copy", c.key, orig.Seq, orig.ID, msg.MessageSeq, ok, err)
+	}
+	if len(c.rows) > 256 {
+		return // the log end and the tail were compared already; the final scan reads everything
+	}
+	msgs, err := h.log(ci).Read(h.ctx, 1, ReadOptions{})
+	if err != nil {
+		h.fail("Read(%q): %v", c.key, err)
+	}
+	var pairAt, idAt []uint64
+	for _, m := range msgs {
+		if m.FromUID == orig.FromUID && m.ClientMsgNo == orig.ClientMsgNo {
+			pairAt = append(pairAt, m.MessageSeq)
+		}
+		if m.MessageID == orig.ID {
+			idAt = append(idAt, m.MessageSeq)
+		}
+	}
+	if len(pairAt) != 1 || pairAt[0] != orig.Seq || len(idAt) != 1 || idAt[0] != orig.Seq {
+		h.fail("after a refused re-submission %q stores (%q,%q) at seqs %v and id %d at seqs %v, want only seq %d", c.key, orig.FromUID, orig.ClientMsgNo, pairAt, orig.ID, idAt, orig.Seq)
+	}
 }
 
 func (s *verifC08State) poolKey(rt *rapid.T) (string, string) {
@@ -153,8 +266,42 @@ func (s *verifC08State) append(rt *rapid.T, ci int, recs []Record, mode AppendMo
 			freedHit = true
 		}
 	}
+	var origs []verifC07Row
+	origFirst := false
+	for i, r := range recs {
+		if o, ok := s.exactOf(ci, r); ok && mode != AppendTrustedContiguous {
+			origs = append(origs, o)
+			origFirst = origFirst || i == 0
+		}
+	}
 	accepted := h.doAppend(ci, recs, mode, 0)
 	s.after(ci, recs)
+	if len(origs) > 0 {
+		if accepted {
+			h.fail("append to %q in mode %d accepted a batch that re-submits the stored message seq %d (id %d, %q/%q)", c.key, mode, origs[0].Seq, origs[0].ID, origs[0].FromUID, origs[0].ClientMsgNo)
+		}
+		for _, o := range origs {
+			s.firstCopyOnly(ci, o)
+		}
+		if mode == AppendStrict {
+			s.resubStrict = true
+		} else {
+			s.resubSA = true
+			s.nResubSA++
+			s.resubSAMulti = s.resubSAMulti || len(recs) > 1
+			s.resubSANotFirst = s.resubSANotFirst || !origFirst
+			s.resubSASaturated = s.resubSASaturated || s.saturated[ci]
+			for _, o := range origs {
+				if at, re := s.reloadLEO[ci]; re && o.Seq <= at {
+					if s.reloadCold[ci] {
+						s.resubSAReloadCold = true
+					} else {
+						s.resubSAReloadWarm = true
+					}
+				}
+			}
+		}
+	}
 	if accepted {
 		s.nAccepted++
 		if freedHit {
@@ -247,7 +394,8 @@ func TestVerifC08UniqueKeysAndIDs(t *testing.T) {
 		warm := rapid.SampledFrom([]int{-1, -1, 0, 1}).Draw(rt, "warmBound")
 		h := verifC07NewH(rt, keys, ids, onDisk, warm, true)
 		defer h.s.destroy()
-		s := &verifC08State{h: h, saturated: map[int]bool{}, freed: map[int]map[IdempotencyKey]bool{}}
+		s := &verifC08State{h: h, saturated: map[int]bool{}, freed: map[int]map[IdempotencyKey]bool{},
+			reloadLEO: map[int]uint64{}, reloadCold: map[int]bool{}, removed: map[int][]verifC07Row{}}
 		s.idBase = rapid.SampledFrom([]uint64{0, 1 << 40, ^uint64(0) - 5_000_000}).Draw(rt, "idBase")
 		maySaturate := rapid.IntRange(0, kit.Scale("C08_SATURATE_ONE_IN", 7, 2)).Draw(rt, "maySaturate") == 0
 		ch := func(rt *rapid.T) int { return rapid.IntRange(0, nch-1).Draw(rt, "ch") }
@@ -279,11 +427,75 @@ func TestVerifC08UniqueKeysAndIDs(t *testing.T) {
 			i := rapid.IntRange(0, len(recs)-1).Draw(rt, "victim")
 			recs[i].FromUID, recs[i].ClientMsgNo = old.FromUID, old.ClientMsgNo
 		}
+		// keyedRow draws a stored row of ci that carries a full pair.
+		keyedRow := func(rt *rapid.T, ci int) (int, bool) {
+			c := h.m.chans[ci]
+			var idx []int
+			for i := range c.rows {
+				if verifC08Keyed(c.rows[i]) {
+					idx = append(idx, i)
+				}
+			}
+			if len(idx) == 0 {
+				return 0, false
+			}
+			return idx[rapid.IntRange(0, len(idx)-1).Draw(rt, "keyedRow")], true
+		}
+		// storedExact turns one record of the batch into the exact re-submission
+		// of a stored message (same pair, same id, same payload): the retry of
+		// an already stored sequenced proposal
+		storedExact := func(rt *rapid.T, ci int, recs []Record, oneIn int) {
+			if rapid.IntRange(1, oneIn).Draw(rt, "exactOfStored") != 1 {
+				return
+			}
+			i, ok := keyedRow(rt, ci)
+			if !ok {
+				return
+			}
+			recs[rapid.IntRange(0, len(recs)-1).Draw(rt, "exactVictim")] = verifC08RowRecord(h.m.chans[ci].rows[i])
+		}
 		strict := func(rt *rapid.T) {
 			ci := ch(rt)
 			recs := batch(rt, true)
 			storedKey(rt, ci, recs)
+			storedExact(rt, ci, recs, 6)
 			s.append(rt, ci, recs, AppendStrict)
+		}
+		// resubmit: a run of 1-3 neighbouring stored rows around a keyed one is
+		// sent again verbatim (a re-submitted proposal batch), optionally with
+		// fresh records before / after it, optionally after the channel state
+		// was reclaimed.
+		resubmit := func(rt *rapid.T) {
+			ci := ch(rt)
+			i, ok := keyedRow(rt, ci)
+			if !ok {
+				rt.Skip("no stored row with a full pair")
+			}
+			c := h.m.chans[ci]
+			lo := i - min(i, rapid.IntRange(0, 1).Draw(rt, "runBefore"))
+			hi := i + min(len(c.rows)-1-i, rapid.IntRange(0, 1).Draw(rt, "runAfter"))
+			var recs []Record
+			for n := rapid.SampledFrom([]int{0, 0, 0, 1, 2}).Draw(rt, "freshBefore"); n > 0; n-- {
+				recs = append(recs, s.record(rt, false))
+			}
+			for j := lo; j <= hi; j++ {
+				r := verifC08RowRecord(c.rows[j])
+				if rapid.IntRange(0, 5).Draw(rt, "restamp") == 0 {
+					r.ServerTimestampMS++
+				}
+				recs = append(recs, r)
+			}
+			for n := rapid.SampledFrom([]int{0, 0, 0, 1, 2}).Draw(rt, "freshAfter"); n > 0; n-- {
+				recs = append(recs, s.record(rt, false))
+			}
+			switch rapid.IntRange(0, 5).Draw(rt, "reloadFirst") {
+			case 0:
+				s.reopen(rapid.Bool().Draw(rt, "closeLeasesFirst"))
+			case 1, 2:
+				s.closeLeases(ci)
+			}
+			mode := rapid.SampledFrom([]AppendMode{AppendServerAllocatedMessageID, AppendServerAllocatedMessageID, AppendServerAllocatedMessageID, AppendStrict}).Draw(rt, "mode")
+			s.append(rt, ci, recs, mode)
 		}
 		actions := map[string]func(*rapid.T){
 			"appendStrict":  strict,
@@ -293,7 +505,85 @@ func TestVerifC08UniqueKeysAndIDs(t *testing.T) {
 				ci := ch(rt)
 				recs := batch(rt, false)
 				storedKey(rt, ci, recs)
+				storedExact(rt, ci, recs, 3)
 				s.append(rt, ci, recs, AppendServerAllocatedMessageID)
+			},
+			"resubmitStored":  resubmit,
+			"resubmitStored2": resubmit,
+			"resubmitRemoved": func(rt *rapid.T) {
+				// a message that was cut off by a truncation is proposed again
+				// under its old id: stored once if its pair is free, refused if
+				// the pair was taken meanwhile
+				ci := ch(rt)
+				var cand []verifC07Row
+				for _, r := range s.removed[ci] {
+					if _, live := h.m.ids[r.ID]; !live {
+						cand = append(cand, r)
+					}
+				}
+				if len(cand) == 0 {
+					rt.Skip("no truncated-away message whose id is free")
+				}
+				r := cand[rapid.IntRange(0, len(cand)-1).Draw(rt, "removedRow")]
+				mode := rapid.SampledFrom([]AppendMode{AppendServerAllocatedMessageID, AppendStrict}).Draw(rt, "mode")
+				verdict, _ := h.m.appendVerdict(h.m.chans[ci], []Record{verifC08RowRecord(r)}, mode, 0)
+				s.append(rt, ci, []Record{verifC08RowRecord(r)}, mode)
+				if verdict == verifC07Accept {
+					s.resubRemovedAccepted = true
+				} else {
+					s.resubRemovedRejected = true
+				}
+			},
+			"reapplyTail": func(rt *rapid.T) {
+				// the last 1-3 rows are cut off and the very same records are
+				// applied again at the same sequences (follower replay after a
+				// divergent-tail truncation, or the new leader appending them)
+				ci := ch(rt)
+				c := h.m.chans[ci]
+				lo := uint64(1)
+				if c.retOK {
+					lo = c.ret.LocalRetentionThroughSeq + 1
+				}
+				if c.leo < lo {
+					rt.Skip("nothing to truncate")
+				}
+				from := c.leo - min(c.leo-lo, uint64(rapid.IntRange(0, 2).Draw(rt, "back")))
+				i, ok := c.find(from)
+				if !ok {
+					rt.Skip("tail row missing")
+				}
+				var recs []Record
+				for _, r := range c.rows[i:] {
+					recs = append(recs, verifC08RowRecord(r))
+				}
+				before := verifC08CopyKeys(c.keys)
+				h.doTruncate(ci, from)
+				s.markFreed(ci, before)
+				s.truncated(ci)
+				reloaded := false
+				switch rapid.IntRange(0, 5).Draw(rt, "reloadBetween") {
+				case 0:
+					s.reopen(rapid.Bool().Draw(rt, "closeLeasesFirst"))
+					reloaded = true
+				case 1:
+					s.closeLeases(ci)
+					reloaded = true
+				}
+				switch how := rapid.IntRange(0, 4).Draw(rt, "how"); how {
+				case 0, 1:
+					if !h.doApplyFetch(ci, ApplyFetchRequest{Records: recs, BaseSeq: from}) {
+						h.fail("re-apply of the truncated tail at seq %d refused", from)
+					}
+					s.after(ci, recs)
+					s.reapplyFetch = true
+				case 2:
+					s.append(rt, ci, recs, AppendTrustedContiguous)
+					s.reapplyTrusted = true
+				default:
+					s.append(rt, ci, recs, []AppendMode{AppendServerAllocatedMessageID, AppendStrict}[how-3])
+					s.reapplyValidating = true
+				}
+				s.reapplyAfterReload = s.reapplyAfterReload || reloaded
 			},
 			"appendTrusted": func(rt *rapid.T) {
 				ci := ch(rt)
@@ -317,8 +607,12 @@ func TestVerifC08UniqueKeysAndIDs(t *testing.T) {
 				}
 				from := c.leo - min(c.leo-lo, uint64(rapid.IntRange(0, 3).Draw(rt, "back")))
 				before := verifC08CopyKeys(c.keys)
+				if i, ok := c.find(from); ok && len(s.removed[ci]) < 64 {
+					s.removed[ci] = append(s.removed[ci], c.rows[i:]...)
+				}
 				h.doTruncate(ci, from)
 				s.markFreed(ci, before)
+				s.truncated(ci)
 			},
 			"trimHead": func(rt *rapid.T) {
 				ci := ch(rt)
@@ -335,22 +629,18 @@ func TestVerifC08UniqueKeysAndIDs(t *testing.T) {
 				s.markFreed(ci, before)
 			},
 			"closeLeases": func(rt *rapid.T) {
-				ci := ch(rt)
-				if len(h.s.leases[ci]) == 0 {
-					h.acquire(ci)
-				}
-				h.closeLeases(ci)
+				s.closeLeases(ch(rt))
 			},
 			"reopen": func(rt *rapid.T) {
 				if rapid.IntRange(0, 1).Draw(rt, "really") != 0 {
 					for ci := range h.s.leases {
 						if len(h.s.leases[ci]) > 0 {
-							h.closeLeases(ci)
+							s.closeLeases(ci)
 						}
 					}
 					return
 				}
-				h.reopen(rapid.Bool().Draw(rt, "closeLeasesFirst"))
+				s.reopen(rapid.Bool().Draw(rt, "closeLeasesFirst"))
 			},
 			"saturate": func(rt *rapid.T) {
 				ci := ch(rt)
@@ -380,18 +670,19 @@ func TestVerifC08UniqueKeysAndIDs(t *testing.T) {
 				// rebuilt from > 384 durable keys, then retry stored keys
 				switch rapid.IntRange(0, 3).Draw(rt, "reloadAfterSaturation") {
 				case 0:
-					h.reopen(true)
+					s.reopen(true)
 				case 1, 2:
-					if len(h.s.leases[ci]) == 0 {
-						h.acquire(ci)
-					}
-					h.closeLeases(ci)
+					s.closeLeases(ci)
 				}
 				c := h.m.chans[ci]
 				for probe := 0; probe < 3; probe++ {
 					old := c.rows[rapid.IntRange(0, len(c.rows)-1).Draw(rt, "probeRow")]
 					pm := rapid.SampledFrom([]AppendMode{AppendStrict, AppendServerAllocatedMessageID}).Draw(rt, "probeMode")
-					s.append(rt, ci, []Record{{ID: s.freshID(), FromUID: old.FromUID, ClientMsgNo: old.ClientMsgNo, ServerTimestampMS: 9, Payload: []byte{2}}}, pm)
+					probeRec := Record{ID: s.freshID(), FromUID: old.FromUID, ClientMsgNo: old.ClientMsgNo, ServerTimestampMS: 9, Payload: []byte{2}}
+					if verifC08Keyed(old) && rapid.Bool().Draw(rt, "probeExact") {
+						probeRec = verifC08RowRecord(old)
+					}
+					s.append(rt, ci, []Record{probeRec}, pm)
 				}
 			},
 			"lookups": func(rt *rapid.T) {
@@ -428,6 +719,20 @@ func TestVerifC08UniqueKeysAndIDs(t *testing.T) {
 		k.LabelIf(h.nReopen > 0, "whole-DB close+reopen")
 		k.LabelIf(h.nColdReclaim > 0, "lease reclamation with evicted warm state")
 		k.LabelIf(h.nReclaim > h.nColdReclaim, "lease reclamation with warm state kept")
+		k.LabelIf(s.resubSA, "exact re-submission (same pair, same id) refused in allocator-id mode")
+		k.LabelIf(s.nResubSA >= 3, "exact re-submission refused in allocator-id mode >= 3 times")
+		k.LabelIf(s.resubSAReloadCold, "exact re-submission refused in allocator-id mode, first copy stored before a reopen / cold reclamation (filter rebuilt)")
+		k.LabelIf(s.resubSAReloadWarm, "exact re-submission refused in allocator-id mode, first copy stored before a warm reclamation")
+		k.LabelIf(s.resubSAMulti, "exact re-submission refused in allocator-id mode inside a multi-record batch")
+		k.LabelIf(s.resubSANotFirst, "exact re-submission refused in allocator-id mode behind other records of the batch")
+		k.LabelIf(s.resubSASaturated, "exact re-submission refused in allocator-id mode behind a saturated filter")
+		k.LabelIf(s.resubStrict, "exact re-submission refused in strict mode")
+		k.LabelIf(s.resubRemovedAccepted, "truncated-away message proposed again under its id: stored once")
+		k.LabelIf(s.resubRemovedRejected, "truncated-away message proposed again under its id: pair taken meanwhile, refused")
+		k.LabelIf(s.reapplyFetch, "truncated tail re-applied verbatim at the same sequences by follower apply")
+		k.LabelIf(s.reapplyTrusted, "truncated tail re-appended verbatim (trusted-contiguous)")
+		k.LabelIf(s.reapplyValidating, "truncated tail re-appended verbatim (strict / allocator-id)")
+		k.LabelIf(s.reapplyAfterReload, "truncated tail re-applied after a reload in between")
 		k.LabelIf(s.nRejected == 0, "no duplicate rejected")
 		k.Sample(func() any { return h.traceString() })
 	})
